@@ -236,7 +236,7 @@ func (x *Exec) callFunc(fn *types.Func, recv Value, args []Value, st *State, e *
 	fc := x.prog.Contracts.Funcs[key]
 	fi := x.prog.FuncsByObj[fn]
 	if fc != nil && fc.Opts["inline"] == "" {
-		return x.callContract(fc, fi, sig, recv, args, st, pos, key)
+		return x.callContract(fc, fi, sig, recv, args, st, pos, key, e)
 	}
 	if fi != nil && fi.Decl.Body != nil && fi.Pkg == x.pkg {
 		return x.inlineBody(fi, sig, fi.Decl.Body, recv, args, st, key, nil)
@@ -482,7 +482,7 @@ func (x *Exec) mayWrite(fi *FuncInfo, fc *FuncContract) map[string]bool {
 		if fc != nil {
 			if m, ok := x.mayWriteCache[fi.Key]; ok {
 				for _, ef := range fc.Effects {
-					m[x.ghostKey(ef.Var)] = true
+					m[x.effectKey(ef.Var)] = true
 				}
 			}
 		}
@@ -506,7 +506,8 @@ func (x *Exec) mayWrite(fi *FuncInfo, fc *FuncContract) map[string]bool {
 		}()
 		savedInline := x.inlineStack
 		x.inlineStack = nil
-		defer func() { x.inlineStack = savedInline }()
+		x.noEnv++ // the frame is what the function itself writes, not what the environment does meanwhile
+		defer func() { x.inlineStack = savedInline; x.noEnv-- }()
 		st := newState()
 		sig := fi.Obj.Type().(*types.Signature)
 		_, heap := x.dryRun(st, func(s0 *State) []*State {
@@ -529,7 +530,47 @@ func (x *Exec) mayWrite(fi *FuncInfo, fc *FuncContract) map[string]bool {
 	return res
 }
 
-func (x *Exec) callContract(fc *FuncContract, fi *FuncInfo, sig *types.Signature, recv Value, args []Value, st *State, pos token.Pos, key string) Value {
+func (x *Exec) callContract(fc *FuncContract, fi *FuncInfo, sig *types.Signature, recv Value, args []Value, st *State, pos token.Pos, key string, callExpr *ast.CallExpr) Value {
+	// &local arguments: copy-in to a fresh box (copy-out after the call)
+	type boxed struct {
+		obj types.Object
+		ref Term
+		t   types.Type
+	}
+	var boxes []boxed
+	for i, a := range args {
+		pl, ok := a.(PtrLocalV)
+		if !ok || i >= sig.Params().Len() {
+			continue
+		}
+		pt, ok := sig.Params().At(i).Type().Underlying().(*types.Pointer)
+		if !ok {
+			continue
+		}
+		r := x.alloc(st, "box")
+		x.storeDerefLocal(st, pt.Elem(), r, st.vars[pl.Obj])
+		delete(st.local, r.S)
+		args = append([]Value(nil), args...)
+		args[i] = r
+		boxes = append(boxes, boxed{pl.Obj, r, pt.Elem()})
+	}
+	defer func() {
+		mw := x.mayWrite(fi, fc)
+		for _, b := range boxes {
+			if st.dead {
+				continue
+			}
+			written := mw["*"]
+			if _, isStruct := b.t.Underlying().(*types.Struct); isStruct {
+				written = true
+			} else if mw[x.boxKey(b.t)] {
+				written = true
+			}
+			if written {
+				st.vars[b.obj] = x.loadDeref(st, b.t, b.ref, pos)
+			}
+		}
+	}()
 	env := x.contractEnv(fc, fi, sig, recv, args, nil, st, st)
 	// receiver must be non-nil for pointer receivers
 	if sig.Recv() != nil {
@@ -584,6 +625,27 @@ func (x *Exec) callContract(fc *FuncContract, fi *FuncInfo, sig *types.Signature
 			x.havocVar(st, pl.Obj)
 		}
 	}
+	if wp := fc.Opts["writes"]; wp != "" && callExpr != nil {
+		// the callee writes through this slice parameter: the sliced array gets unknown new contents
+		for i := 0; i < sig.Params().Len() && i < len(args); i++ {
+			name := sig.Params().At(i).Name()
+			if i < len(fc.ParamNames) {
+				name = fc.ParamNames[i]
+			}
+			if name != wp || i >= len(callExpr.Args) {
+				continue
+			}
+			se, ok := unparen(callExpr.Args[i]).(*ast.SliceExpr)
+			sl, isSl := args[i].(*StructV)
+			if !ok || !isSl {
+				x.unsupported(callExpr, "argument written by %s is not a slice of an addressable array", key)
+			}
+			na := x.freshLike(sl.get("$arr"), "written")
+			x.assign(se.X, na, st)
+			args = append([]Value(nil), args...)
+			args[i] = sl.with("$arr", na)
+		}
+	}
 	var results []Value
 	for i := 0; i < sig.Results().Len(); i++ {
 		results = append(results, x.freshTyped(sig.Results().At(i).Type(), key+".res", st))
@@ -620,7 +682,7 @@ func sortedKeysB(m map[string]bool) []string {
 // interfere applies the declared environment actions: externally closable
 // channels may have been closed (monotone), the kernel may have dropped watches.
 func (x *Exec) interfere(st *State) {
-	if st.dead {
+	if st.dead || x.noEnv > 0 {
 		return
 	}
 	for _, k := range sortedKeys(x.heapMakers) {
@@ -1011,6 +1073,13 @@ func (x *Exec) syncCall(fn *types.Func, f *ast.SelectorExpr, st *State, pos toke
 		x.unsupported(f, "sync method %s", fn.Name())
 	}
 	return nil
+}
+
+func (x *Exec) effectKey(v string) string {
+	if strings.HasPrefix(v, "tok:") {
+		return x.tokKey(v[4:])
+	}
+	return x.ghostKey(v)
 }
 
 func (x *Exec) didLockKey(class string) string {
